@@ -497,15 +497,17 @@ int main(int argc, char** argv) {
       printf("copyfile %s\n", rs(r));
     } else if (IS("sendfile", 5)) {
       int out = SLOT(A(1)), in = SLOT(A(2)); long long off = atoll(A(3)); size_t len = (size_t) atoll(A(4));
+      struct stat s1, s2;
+      /* copying a file onto itself: copy_file_range (libuv's first choice) and sendfile(2) legitimately differ
+         (the latter keeps reading what it just appended); not part of the property, skipped on every route */
+      if (out >= 0 && in >= 0 && !fstat(out, &s1) && !fstat(in, &s2) && s1.st_ino == s2.st_ino && s1.st_dev == s2.st_dev) {
+        puts("sendfile same-file-skipped");
+        continue;
+      }
       if (mode == POSIX) {
-        off_t o = off; long tot = 0; r = 0;
-        while ((size_t) tot < len) {
-          ssize_t k = sendfile(out, in, &o, len - tot);
-          if (k < 0) { if (errno == EINTR) continue; r = -errno; break; }
-          if (k == 0) break;
-          tot += k;
-        }
-        if (tot > 0 || r == 0) r = tot;
+        off_t o = off; ssize_t k;            /* one sendfile(2) call, as documented for uv_fs_sendfile */
+        do k = sendfile(out, in, &o, len); while (k < 0 && errno == EINTR);
+        r = k < 0 ? -errno : k;
       } else {
         r = fin(uv_fs_sendfile(loop, &req, out, in, off, len, CB), &req);
         uv_fs_req_cleanup(&req);
